@@ -87,6 +87,9 @@ def run(ck):
             cfg = make_config(facts, extra_inline=INL, ret_summary=fit_summary)
             outs = analyse(repo, func, cfg, max_paths=2048)
             for o in outs:
+                from ..procmodel import is_admissibility_exit
+                if is_admissibility_exit(o):
+                    continue
                 if o.kind != "return":
                     ck.ob("N0", func.qualname, "model completes", o.exc.where or func.loc(), False,
                           "raises %s: %s" % (o.exc.exc_type, o.exc.msg), config=label)
@@ -310,17 +313,20 @@ def check_measurements(ck, repo):
         ck.analysed_function(f)
         cfg = make_config({"curve.permeances": "notnone"}, extra_inline=("DiffusionCurve.__len__",))
         outs = analyse(repo, f, cfg)
-        ok = False
+        ok = bool(outs)
         found = ""
-        if len(outs) == 1 and outs[0].kind == "return" and isinstance(outs[0].value, ObjV):
-            d = outs[0].value.fields.get("data")
-            if isinstance(d, ListV) and d.kind == "fam" and isinstance(d.elem, ObjV):
-                p = d.elem.fields.get("p")
-                t = d.elem.fields.get("t")
-                found = "p=%r t=%r" % (p, t)
-                ok = isinstance(p, Num) and p.r.single_atom() is not None and \
-                    p.r.single_atom().name == "curve.permeances[#b0][%d].value" % i and \
-                    isinstance(t, Num) and t.r == Rat.sym("curve.feed_temperature")
+        for o in outs:
+            oko = False
+            if o.kind == "return" and isinstance(o.value, ObjV):
+                d = o.value.fields.get("data")
+                if isinstance(d, ListV) and d.kind == "fam" and isinstance(d.elem, ObjV):
+                    p = d.elem.fields.get("p")
+                    t = d.elem.fields.get("t")
+                    found = "p=%r t=%r" % (p, t)
+                    oko = isinstance(p, Num) and p.r.single_atom() is not None and \
+                        p.r.single_atom().name == "curve.permeances[#b0][%d].value" % i and \
+                        isinstance(t, Num) and t.r == Rat.sym("curve.feed_temperature")
+            ok = ok and oko
         ck.ob("N1", f.qualname, "measurement j of component %d carries permeances[j][%d].value at the curve's temperature" % (i + 1, i), f.loc(), ok,
               found=found[:300])
         g = repo.find_function("Measurements.from_diffusion_curves_%s" % comp)
